@@ -310,3 +310,168 @@ Print Assumptions C06_subst_register.
 Theorem C06_qcacheok_empty : forall Sg s, QCacheOK ac_get Sg s [].
 Proof. exact qcacheok_empty. Qed.
 Print Assumptions C06_qcacheok_empty.
+
+(** ** TDD (package TDDx): cache transparency for the three-valued apply algorithms (DD/ApplyTdd.v:
+    apply_not / apply_bin::<OP> / apply_ite_rec with the cache keys of the code), per operation and for whole
+    histories of the TDD manager state machine Mgr/TddHist.v: two managers in ANY two configurations (operand
+    order of terminal_bin, cache implementation incl. none and the direct-mapped cache of DD/Cache.v with any
+    hash / capacity, cache cleared by every collection) fed the same calls are observationally equal. *)
+From Coq Require Import List NArith PArith Bool Arith FMapPositive.
+From OxiVerif Require Import DD.Table DD.TableExtra DD.TableProofs DD.Build DD.BuildProofs DD.Apply DD.ApplyProofs DD.Cache DD.CacheProofs
+  DD.ConfigApply DD.Tdd DD.ApplyTdd DD.ApplyTddBase DD.ApplyTddProofs DD.ApplyTddTop DD.TddAudit DD.TddAuditProofs
+  Mgr.History Mgr.TddHist Mgr.TddHistProofs Mgr.TddHistSim Mgr.TddHistExamples.
+Import ListNotations.
+
+(* whatever two correct caches contain: the same value under every three-valued assignment *)
+Theorem C06_tdd_apply_bin_cache_transparent :
+  forall (gt1 gt2 : ref -> ref -> bool) (C1 C2 : Type) (cget1 : C1 -> N -> list ref -> option ref)
+         (cadd1 : C1 -> N -> list ref -> ref -> C1) (cget2 : C2 -> N -> list ref -> option ref)
+         (cadd2 : C2 -> N -> list ref -> ref -> C2),
+  lossy cget1 cadd1 -> lossy cget2 cadd2 ->
+  forall op s c1 c2 f g fuel1 fuel2 s1 c1' r1 s2 c2' r2,
+  TdOK s -> TCacheOK cget1 s c1 -> TCacheOK cget2 s c2 -> ref_ok s f -> ref_ok s g ->
+  FUEL s <= fuel1 -> FUEL s <= fuel2 ->
+  td_apply_bin gt1 C1 cget1 cadd1 fuel1 s c1 op f g = Some (s1, c1', r1) ->
+  td_apply_bin gt2 C2 cget2 cadd2 fuel2 s c2 op f g = Some (s2, c2', r2) ->
+  forall a : assignment, semk s1 (FUEL s1) r1 (chc a) = semk s2 (FUEL s2) r2 (chc a).
+Proof. exact td_apply_bin_cache_transparent. Qed.
+Print Assumptions C06_tdd_apply_bin_cache_transparent.
+
+(* repeating the operation in any later state of the table (more nodes, any correct cache of any
+   implementation, any edge order) returns the identical reference and creates nothing *)
+Theorem C06_tdd_apply_not_history_independent :
+  forall (C1 C2 : Type) (cget1 : C1 -> N -> list ref -> option ref)
+         (cadd1 : C1 -> N -> list ref -> ref -> C1) (cget2 : C2 -> N -> list ref -> option ref)
+         (cadd2 : C2 -> N -> list ref -> ref -> C2),
+  lossy cget1 cadd1 -> lossy cget2 cadd2 ->
+  forall s c1 f fuel1 s1 c1' r1,
+  TdOK s -> TCacheOK cget1 s c1 -> ref_ok s f -> FUEL s <= fuel1 ->
+  td_apply_not C1 cget1 cadd1 fuel1 s c1 f = Some (s1, c1', r1) ->
+  forall s2 c2 fuel2, TdOK s2 -> extends s1 s2 -> TCacheOK cget2 s2 c2 -> FUEL s2 <= fuel2 ->
+  exists c2', td_apply_not C2 cget2 cadd2 fuel2 s2 c2 f = Some (s2, c2', r1).
+Proof. exact td_apply_not_history_independent. Qed.
+Print Assumptions C06_tdd_apply_not_history_independent.
+
+Theorem C06_tdd_apply_bin_history_independent :
+  forall (gt1 gt2 : ref -> ref -> bool) (C1 C2 : Type) (cget1 : C1 -> N -> list ref -> option ref)
+         (cadd1 : C1 -> N -> list ref -> ref -> C1) (cget2 : C2 -> N -> list ref -> option ref)
+         (cadd2 : C2 -> N -> list ref -> ref -> C2),
+  lossy cget1 cadd1 -> lossy cget2 cadd2 ->
+  forall op s c1 f g fuel1 s1 c1' r1,
+  TdOK s -> TCacheOK cget1 s c1 -> ref_ok s f -> ref_ok s g -> FUEL s <= fuel1 ->
+  td_apply_bin gt1 C1 cget1 cadd1 fuel1 s c1 op f g = Some (s1, c1', r1) ->
+  forall s2 c2 fuel2, TdOK s2 -> extends s1 s2 -> TCacheOK cget2 s2 c2 -> FUEL s2 <= fuel2 ->
+  exists c2', td_apply_bin gt2 C2 cget2 cadd2 fuel2 s2 c2 op f g = Some (s2, c2', r1).
+Proof. exact td_apply_bin_history_independent. Qed.
+Print Assumptions C06_tdd_apply_bin_history_independent.
+
+Theorem C06_tdd_apply_ite_history_independent :
+  forall (gt1 gt2 : ref -> ref -> bool) (C1 C2 : Type) (cget1 : C1 -> N -> list ref -> option ref)
+         (cadd1 : C1 -> N -> list ref -> ref -> C1) (cget2 : C2 -> N -> list ref -> option ref)
+         (cadd2 : C2 -> N -> list ref -> ref -> C2),
+  lossy cget1 cadd1 -> lossy cget2 cadd2 ->
+  forall s c1 f g h fuel1 s1 c1' r1,
+  TdOK s -> TCacheOK cget1 s c1 -> ref_ok s f -> ref_ok s g -> ref_ok s h -> FUEL s <= fuel1 ->
+  td_apply_ite gt1 C1 cget1 cadd1 fuel1 s c1 f g h = Some (s1, c1', r1) ->
+  forall s2 c2 fuel2, TdOK s2 -> extends s1 s2 -> TCacheOK cget2 s2 c2 -> FUEL s2 <= fuel2 ->
+  exists c2', td_apply_ite gt2 C2 cget2 cadd2 fuel2 s2 c2 f g h = Some (s2, c2', r1).
+Proof. exact td_apply_ite_history_independent. Qed.
+Print Assumptions C06_tdd_apply_ite_history_independent.
+
+(* in its result table the returned reference is THE reference with the result's meaning *)
+Theorem C06_tdd_apply_bin_result_unique :
+  forall (gt : ref -> ref -> bool) (C : Type) (cget : C -> N -> list ref -> option ref)
+         (cadd : C -> N -> list ref -> ref -> C), lossy cget cadd ->
+  forall op fuel s (c : C) f g s' c' r,
+  TdOK s -> TCacheOK cget s c -> ref_ok s f -> ref_ok s g -> FUEL s <= fuel ->
+  td_apply_bin gt C cget cadd fuel s c op f g = Some (s', c', r) ->
+  forall r0, ref_ok s' r0 ->
+    (forall a : assignment, exists x y,
+        tvalue s f (chc a) x /\ tvalue s g (chc a) y /\ tvalue s' r0 (chc a) (table op x y)) ->
+    r0 = r.
+Proof. exact td_apply_bin_result_unique. Qed.
+Print Assumptions C06_tdd_apply_bin_result_unique.
+
+Theorem C06_tdd_apply_ite_result_unique :
+  forall (gt : ref -> ref -> bool) (C : Type) (cget : C -> N -> list ref -> option ref)
+         (cadd : C -> N -> list ref -> ref -> C), lossy cget cadd ->
+  forall fuel s (c : C) f g h s' c' r,
+  TdOK s -> TCacheOK cget s c -> ref_ok s f -> ref_ok s g -> ref_ok s h -> FUEL s <= fuel ->
+  td_apply_ite gt C cget cadd fuel s c f g h = Some (s', c', r) ->
+  forall r0, ref_ok s' r0 ->
+    (forall a : assignment, exists x y z,
+        tvalue s f (chc a) x /\ tvalue s g (chc a) y /\ tvalue s h (chc a) z /\
+        tvalue s' r0 (chc a) (ite3 x y z)) ->
+    r0 = r.
+Proof. exact td_apply_ite_result_unique. Qed.
+Print Assumptions C06_tdd_apply_ite_result_unique.
+
+(* the direct-mapped cache model (any hash): fresh and cleared caches satisfy the cache invariant *)
+Theorem C06_tdd_dm_cache_ok : forall hash s,
+  (forall nb cap, TCacheOK (dmr_get hash) s (dm_init nb cap)) /\
+  (forall c, TCacheOK (dmr_get hash) s (dm_clear c)).
+Proof. exact (fun hash s => conj (tdm_init_ok hash s) (tdm_clear_ok hash s)). Qed.
+Print Assumptions C06_tdd_dm_cache_ok.
+
+(* whole histories: one call keeps two arbitrarily configured managers related ... *)
+Theorem C06_tdd_hist_step :
+  forall (gt1 gt2 : ref -> ref -> bool) (C1 C2 : Type) (cget1 : C1 -> N -> list ref -> option ref)
+         (cadd1 : C1 -> N -> list ref -> ref -> C1) (cget2 : C2 -> N -> list ref -> option ref)
+         (cadd2 : C2 -> N -> list ref -> ref -> C2) (ce1 : C1) (ce2 : C2),
+  lossy cget1 cadd1 -> lossy cget2 cadd2 ->
+  (forall k a, cget1 ce1 k a = None) -> (forall k a, cget2 ce2 k a = None) ->
+  forall (st1 : tstate C1) (st2 : tstate C2) o, tsim C1 C2 cget1 cget2 st1 st2 -> top_pre_b C1 st1 o = true ->
+  exists st1' st2', tstep gt1 C1 cget1 cadd1 ce1 st1 o = Some st1' /\
+                    tstep gt2 C2 cget2 cadd2 ce2 st2 o = Some st2' /\ tsim C1 C2 cget1 cget2 st1' st2'.
+Proof. exact tsim_step. Qed.
+Print Assumptions C06_tdd_hist_step.
+
+(* ... so do call lists from fresh managers *)
+Theorem C06_tdd_hist_cache_independent :
+  forall (gt1 gt2 : ref -> ref -> bool) (C1 C2 : Type) (cget1 : C1 -> N -> list ref -> option ref)
+         (cadd1 : C1 -> N -> list ref -> ref -> C1) (cget2 : C2 -> N -> list ref -> option ref)
+         (cadd2 : C2 -> N -> list ref -> ref -> C2) (ce1 : C1) (ce2 : C2),
+  lossy cget1 cadd1 -> lossy cget2 cadd2 ->
+  (forall k a, cget1 ce1 k a = None) -> (forall k a, cget2 ce2 k a = None) ->
+  forall n ops, tops_pre_b gt1 C1 cget1 cadd1 ce1 (tinit C1 ce1 n) ops = true ->
+  exists st1 st2, trun gt1 C1 cget1 cadd1 ce1 (tinit C1 ce1 n) ops = Some st1 /\
+                  trun gt2 C2 cget2 cadd2 ce2 (tinit C2 ce2 n) ops = Some st2 /\
+                  tsim C1 C2 cget1 cget2 st1 st2.
+Proof. exact thist_config_independent. Qed.
+Print Assumptions C06_tdd_hist_cache_independent.
+
+(* what related states share: occupied slots, the value of every slot under every assignment, the value
+   tables (= the driver's digest), and the answer of slot x == slot y *)
+Theorem C06_tdd_hist_observe :
+  forall (C1 C2 : Type) (cget1 : C1 -> N -> list ref -> option ref) (cget2 : C2 -> N -> list ref -> option ref)
+         (st1 : tstate C1) (st2 : tstate C2), tsim C1 C2 cget1 cget2 st1 st2 ->
+  (forall x, occupied (t_s C1 st1) x = occupied (t_s C2 st2) x) /\
+  (forall x r1 r2, tslot (t_s C1 st1) x = Some r1 -> tslot (t_s C2 st2) x = Some r2 ->
+     (forall av : nat -> tri, tfun_of (t_s C1 st1) r1 av = tfun_of (t_s C2 st2) r2 av) /\
+     td_vtable (t_s C1 st1) r1 = td_vtable (t_s C2 st2) r2) /\
+  (forall x y e1 e1' e2 e2',
+     hget (s_handles (t_s C1 st1)) x = Some e1 -> hget (s_handles (t_s C1 st1)) y = Some e1' ->
+     hget (s_handles (t_s C2 st2)) x = Some e2 -> hget (s_handles (t_s C2 st2)) y = Some e2' ->
+     (e1 = e1' <-> e2 = e2')).
+Proof. exact tsim_observe. Qed.
+Print Assumptions C06_tdd_hist_observe.
+
+(* the direct-mapped cache with any hash, bucket count and capacity against a manager without cache *)
+Theorem C06_tdd_hist_dm_cache_transparent :
+  forall (gt1 gt2 : ref -> ref -> bool) (hash : dm_key -> N) nb cap n ops,
+  tops_pre_b gt1 dm_cache (dmr_get hash) (dmr_add hash) (dm_init nb cap) (tinit dm_cache (dm_init nb cap) n) ops = true ->
+  exists st1 st2,
+    trun gt1 dm_cache (dmr_get hash) (dmr_add hash) (dm_init nb cap) (tinit dm_cache (dm_init nb cap) n) ops = Some st1 /\
+    trun gt2 unit nc_get nc_add tt (tinit unit tt n) ops = Some st2 /\
+    tsim dm_cache unit (dmr_get hash) nc_get st1 st2.
+Proof. exact thist_dm_cache_transparent. Qed.
+Print Assumptions C06_tdd_hist_dm_cache_transparent.
+
+(* non-vacuity: the 17-call history (every constructor) run with an unbounded cache + swapping edge order and
+   with no cache + no swapping: all requests well-formed, both runs defined, the final states related *)
+Theorem C06_tdd_example :
+  tops_pre_b gtA acache ac_get ac_add [] (tinit acache [] 2) ex_ops = true /\
+  (ex_runA = Some ex_stA /\ ex_runB = Some ex_stB) /\
+  tsim acache unit ac_get nc_get ex_stA ex_stB.
+Proof. exact (conj ex_ops_pre (conj ex_runs_defined ex_sim)). Qed.
+Print Assumptions C06_tdd_example.
